@@ -33,29 +33,37 @@ def isOneOfOptString : Shape → Bool
   | .oneOf vs _ => vs.any (fun v => v.isString) && setContains .null vs
   | _ => false
 
+/-- `IsOneOf::<Null>`: `Null` is a variant -/
+def isOneOfNull : Shape → Bool
+  | .oneOf vs _ => setContains .null vs
+  | _ => false
+
 mutual
 /-- `self.is_subset(other)` -/
 def isSubset : Shape → Shape → Bool
   -- Self::Null => other.is_optional() || other.is_null()
-  | .null, other => other.isOptional || other.isNull
+  | .null, other => other.isOptional || other.isNull || isOneOfNull other
   -- Optionals
   | .bool true, other => (other.isBoolean && other.isOptional) || isOneOfOptBool other
   | .number true, other => (other.isNumber && other.isOptional) || isOneOfOptNumber other
   | .string true, other => (other.isString && other.isOptional) || isOneOfOptString other
   | .array t true, .array ty true => isSubset t ty
-  | .array t true, .oneOf vs _ => setContains (.array t true) vs
+  | .array t true, .oneOf vs o =>
+      setContains (.array t true) vs
+        || ((o || setContains .null vs) && anySuperset (.array t false) vs)
   | .array _ true, _ => false
   | .tuple es true, .tuple os true => zipAllSubset es os && es.length == os.length
-  | .tuple es true, .oneOf vs _ => setContains (.tuple es true) vs
-  | .tuple es true, .array ty true =>
-      match ty with
-      | .oneOf vs _ => es.all (fun e => setContains e vs)
-      | _ => false
+  | .tuple es true, .oneOf vs o =>
+      setContains (.tuple es true) vs
+        || ((o || setContains .null vs) && anySuperset (.tuple es false) vs)
+  | .tuple es true, .array ty true => es.all (fun e => isSubset e ty)
   | .tuple _ true, _ => false
   | .object c true, .object oc true =>
-      oc.all (fun kv => mapContainsKey kv.1 c || kv.2.isOptional)
+      oc.all (fun kv => mapContainsKey kv.1 c || kv.2.isOptional || isOneOfNull kv.2)
         && c.all (fun kv => lookupSubset kv.1 kv.2 oc)
-  | .object c true, .oneOf vs _ => anyObjectSuperset (.object c true) vs
+  | .object c true, .oneOf vs o =>
+      anyObjectSuperset (.object c true) vs
+        || ((o || setContains .null vs) && anySuperset (.object c false) vs)
   | .object _ true, _ => false
   | .oneOf vs true, .oneOf ws true =>
       setIsSubset vs ws || vs.all (fun v => anySuperset v ws)
@@ -65,19 +73,14 @@ def isSubset : Shape → Shape → Bool
   | .number false, other => other.isNumber || isOneOfNumber other || isOneOfOptNumber other
   | .string false, other => other.isString || isOneOfString other || isOneOfOptString other
   | .array t false, .array ty _ => isSubset t ty
-  | .array t false, .oneOf vs _ =>
-      setContains (.array t false) vs || setContains (.array t true) vs
+  | .array t false, .oneOf vs _ => anySuperset (.array t false) vs
   | .array _ false, _ => false
   | .tuple es false, .tuple os _ => zipAllSubset es os && es.length == os.length
-  | .tuple es false, .oneOf vs _ =>
-      setContains (.tuple es false) vs || setContains (.tuple es true) vs
-  | .tuple es false, .array ty _ =>
-      match ty with
-      | .oneOf vs _ => es.all (fun e => setContains e vs)
-      | _ => false
+  | .tuple es false, .oneOf vs _ => anySuperset (.tuple es false) vs
+  | .tuple es false, .array ty _ => es.all (fun e => isSubset e ty)
   | .tuple _ false, _ => false
   | .object c false, .object oc _ =>
-      oc.all (fun kv => mapContainsKey kv.1 c || kv.2.isOptional)
+      oc.all (fun kv => mapContainsKey kv.1 c || kv.2.isOptional || isOneOfNull kv.2)
         && c.all (fun kv => lookupSubset kv.1 kv.2 oc)
   | .object c false, .oneOf vs _ => anyObjectSuperset (.object c false) vs
   | .object _ false, _ => false
